@@ -184,10 +184,14 @@ def judge_snapshot(b: Batch, v: VFS, recursive, ctx):
 
 def run_walk(b: Batch, states, recursive, as_bytes, ctx):
     """states[0] = baseline at start; then one poll per following state (repeats = no-change polls)."""
-    v = VFS(as_bytes=as_bytes)
+    v = VFS(as_bytes=as_bytes, root=ctx.get("root", "/r"))
     v.set_state(states[0])
     em, q = mk_emitter(v, recursive)
-    em.on_thread_start()
+    try:
+        em.on_thread_start()
+    except OSError as e:
+        b.violation("poll-raised", f"on_thread_start raised {e!r} for an existing root spelled {v.root!r}", witness=ctx, replay_spec=ctx.get("replay"))
+        return
     if q.take():
         b.violation("events-at-start", "events queued by on_thread_start", witness=ctx, replay_spec=ctx.get("replay"))
     b.case()
@@ -489,6 +493,17 @@ def run_thread_mode(b: Batch, states, recursive, ctx, remove_root_at_end=False):
     h = _H()
     rs = {"kind": "thread1", "states": [sorted(s.items()) for s in states], "recursive": recursive, "root": remove_root_at_end}
     wit = dict(ctx, states=[sorted(s.items()) for s in states], recursive=recursive)
+    # what the emitter offers to the observer's queue, before the queue may coalesce an event with an equal one that is
+    # still waiting (two consecutive polls can each end/begin with FileModified(x))
+    offered = []
+    real_put = obs.event_queue.put
+
+    def logging_put(item, *a, **k):
+        if isinstance(item, tuple):
+            offered.append(ev_tuple(item[0]))
+        return real_put(item, *a, **k)
+
+    obs.event_queue.put = logging_put
     obs.schedule(h, v.root, recursive=recursive)
     obs.start()
     b.case()
@@ -512,7 +527,20 @@ def run_thread_mode(b: Batch, states, recursive, ctx, remove_root_at_end=False):
         b.inconc("thread mode: emitter did not complete the scripted walks within 20 s")
         return
     with h.lock:
-        got = list(h.events)
+        delivered = list(h.events)
+    got = list(offered)
+
+    def _collapse(seq):
+        out = []
+        for x in seq:
+            if not out or out[-1] != x:
+                out.append(x)
+        return out
+
+    if _collapse(delivered) != _collapse(got):
+        b.violation("thread-delivery-mismatch", f"what the handler received differs from what the emitter queued by more than coalesced adjacent duplicates: queued {got[-6:]!r} delivered {delivered[-6:]!r}",
+                    witness=dict(wit, got=got, delivered=delivered), replay_spec=rs)
+        return
     refv = VFS()
     # expected: concatenation of per-poll diffs; adjacent identical events may be coalesced by the event queue
     pos = 0
@@ -626,7 +654,10 @@ def run_batch(spec):
                 break
             states = gen_walk(r, r.randint(3, 20), pool)
             rec, byt = r.random() < 0.7, r.random() < 0.25
-            ctx = {"mode": "walk", "replay": {"kind": "walk1", "states": [sorted(s.items()) for s in states], "recursive": rec, "bytes": byt}}
+            # the watch path as the caller spelled it (relative, not normalised): the snapshot keys and event paths are built on it
+            root = r.choice(["/r", "/r", "r", "./r", "x/../r"])
+            ctx = {"mode": "walk", "root": root, "replay": {"kind": "walk1", "states": [sorted(s.items()) for s in states], "recursive": rec, "bytes": byt, "root": root}}
+            b.add("root_spellings", root)
             run_walk(b, states, rec, byt, ctx)
             if n % 5 == 0:
                 v = VFS(as_bytes=byt)
@@ -686,7 +717,7 @@ def run_batch(spec):
                     dedup.append(s)
             run_thread_mode(b, dedup, r.random() < 0.7, {"mode": "thread"}, remove_root_at_end=(n % 2 == 0))
     elif kind == "walk1":
-        run_walk(b, [{k: Ent(*v) for k, v in s} for s in spec["states"]], spec["recursive"], spec["bytes"], {"mode": "replay", "replay": spec})
+        run_walk(b, [{k: Ent(*v) for k, v in s} for s in spec["states"]], spec["recursive"], spec["bytes"], {"mode": "replay", "replay": spec, "root": spec.get("root", "/r")})
     elif kind == "fault1":
         run_faults(b, {k: Ent(*v) for k, v in spec["state"]}, spec["recursive"], [spec["errno"]], {"mode": "replay"})
     elif kind == "race1":
